@@ -17,6 +17,7 @@ import (
 func init() {
 	verifrt.Register("H_C17_Eligible", H_C17_Eligible)
 	verifrt.Register("H_C17_Node", H_C17_Node)
+	verifrt.Register("H_C17_StoreScan", H_C17_StoreScan)
 }
 
 // c17segStart: position p starts a path segment
@@ -135,4 +136,51 @@ func H_C17_Node(v *verifrt.T) {
 	} else {
 		v.Reach("skipped")
 	}
+}
+
+// O1c: the real Local.Scan (directory walk, per-node filter) over a small tree
+// on the file-system model, twice — between the scans one file is deleted and
+// one is added. Each scan returns exactly the files that exist and are
+// eligible at that scan (old enough at its start, not hidden, not ignored),
+// each once: nothing from an earlier scan leaks into a later one.
+func H_C17_StoreScan(v *verifrt.T) {
+	root := filepath.Join(v.TempRoot(), "out")
+	v.Version("v1", 4)
+	minAge := v.Duration("min-age", time.Second, time.Hour)
+	put := func(name string, age time.Duration) {
+		p := filepath.Join(root, name)
+		v.PutVersionFile(p, "v1")
+		v.SetAge(p, age)
+	}
+	ageA := v.Duration("age-a", 0, 2*time.Hour)
+	v.Assume(verifrt.Or(ageA+time.Minute <= minAge, ageA >= minAge+time.Minute))
+	put("a.dat", ageA)
+	put("d/b.dat", 3*time.Hour)
+	put(".hidden", 3*time.Hour)
+	dir := &Local{Root: root, MinAge: minAge}
+	dir.AddStandardIgnore()
+	names := func(fs []sts.File) map[string]int {
+		m := map[string]int{}
+		for _, f := range fs {
+			m[f.GetName()]++
+		}
+		return m
+	}
+	first, _, err := dir.Scan(func(sts.File) bool { return true })
+	v.Assert(err == nil, "C17 the scan succeeds")
+	got := names(first)
+	wantA := 0
+	if ageA >= minAge {
+		wantA = 1
+	}
+	v.Assert(got["a.dat"] == wantA && got["d/b.dat"] == 1 && got[".hidden"] == 0 && len(got) == wantA+1, "C17.O1 a scan returns exactly the eligible files, each once")
+	// between the scans: d/b.dat is sent and removed, c.dat appears
+	os.Remove(filepath.Join(root, "d/b.dat"))
+	put("c.dat", 3*time.Hour)
+	second, _, err := dir.Scan(func(sts.File) bool { return true })
+	v.Assert(err == nil, "C17 the scan succeeds")
+	got2 := names(second)
+	v.Assert(got2["d/b.dat"] == 0, "C17.O1 a file that no longer exists is not returned by a later scan")
+	v.Assert(got2["a.dat"] == wantA && got2["c.dat"] == 1 && len(got2) == wantA+1, "C17.O1 a later scan returns exactly what is there and eligible now, each file once (nothing left over from the earlier scan)")
+	v.Reach("scanned-twice")
 }
